@@ -7,6 +7,7 @@ import (
 	"sort"
 	"strconv"
 	"strings"
+	"sync"
 	"syscall"
 
 	remoteexecution "github.com/bazelbuild/remote-apis/build/bazel/remote/execution/v2"
@@ -38,6 +39,7 @@ var hashLens = map[string]int{"md5": 32, "sha1": 40, "sha256": 64, "sha384": 96}
 // faultFetcher sits on top of the directory fetcher stack and fails
 // GetDirectory for the digests of the current operation's fault set.
 type faultFetcher struct {
+	mu       sync.Mutex
 	base     cas.DirectoryFetcher
 	failing  map[string]bool
 	injected *int
@@ -45,11 +47,14 @@ type faultFetcher struct {
 }
 
 func (f *faultFetcher) GetDirectory(ctx context.Context, d digest.Digest) (*remoteexecution.Directory, error) {
+	f.mu.Lock()
 	*f.calls++
 	if f.failing[casKey(d)] {
 		*f.injected++
+		f.mu.Unlock()
 		return nil, status.Error(codes.Unavailable, "injected directory fetch fault")
 	}
+	f.mu.Unlock()
 	return f.base.GetDirectory(ctx, d)
 }
 
@@ -112,7 +117,7 @@ func newRig(opts map[string]string, seed uint64) (*rig, error) {
 
 // newRoot builds a fresh build directory the way cmd/bb_worker does.
 func (r *rig) newRoot() {
-	g := rng{hx.NewRand(r.seed + 77)}
+	g := newRng(hx.NewRand(r.seed + 77))
 	if r.opts["alloc"] == "nfs" {
 		r.ha = virtual.NewNFSHandleAllocator(g)
 	} else {
@@ -487,4 +492,48 @@ func (rp *reporter) sorted() []string {
 		out[i] = p.entry
 	}
 	return out
+}
+
+// concurrentWalk lets `threads` goroutines list every given directory path, each
+// in its own random order, on the same tree at the same time. Returns per path
+// the common answer, or a description of a disagreement.
+func (r *rig) concurrentWalk(paths [][]string, threads int, seed uint64) (answers []string, disagreement string) {
+	results := make([][]string, threads)
+	var wg sync.WaitGroup
+	for t := 0; t < threads; t++ {
+		order := make([]int, len(paths))
+		for i := range order {
+			order[i] = i
+		}
+		rnd := hx.NewRand(seed*31 + uint64(t))
+		for i := len(order) - 1; i > 0; i-- {
+			j := rnd.Intn(i + 1)
+			order[i], order[j] = order[j], order[i]
+		}
+		results[t] = make([]string, len(paths))
+		wg.Add(1)
+		go func(t int) {
+			defer wg.Done()
+			for _, i := range order {
+				func() {
+					defer func() {
+						if p := recover(); p != nil {
+							results[t][i] = fmt.Sprintf("panic: %v", p)
+						}
+					}()
+					results[t][i] = r.exec("readdir", toks(paths[i]))
+				}()
+			}
+		}(t)
+	}
+	wg.Wait()
+	answers = results[0]
+	for t := 1; t < threads; t++ {
+		for i := range paths {
+			if results[t][i] != answers[i] && disagreement == "" {
+				disagreement = fmt.Sprintf("concurrent explorations of one tree disagree on readdir %q: %q vs %q", strings.Join(paths[i], "/"), answers[i], results[t][i])
+			}
+		}
+	}
+	return answers, disagreement
 }
